@@ -32,6 +32,9 @@ type hist struct {
 	tssOrig map[string]*packettypes.MsgRecvPacket
 	tssPkt  map[string]*pkt.Pkt
 	tssSeq  uint64
+	// the last accepted TSS receive (replayed right away by the closing steps of a history)
+	tssLastNode *core.Node
+	tssLastKey  string
 }
 
 const tssChain = "tss-chain"
@@ -101,7 +104,7 @@ func runHistory(r *core.Run, cid string, L int) {
 		case x < 70:
 			h.doubleFresh()
 		case x < 80:
-			h.tssTraffic()
+			h.tssTraffic("")
 		default:
 			h.replay()
 		}
@@ -109,6 +112,9 @@ func runHistory(r *core.Run, cid string, L int) {
 			break
 		}
 	}
+	// closing steps: a TSS-numbered packet with a sequence >= 2^63 and its immediate replay
+	h.tssTraffic("fresh-high")
+	h.tssTraffic("replay-last")
 	h.finalCheck()
 	if h.nRep > 0 {
 		r.Count("histories_with_replays", 1)
@@ -146,9 +152,15 @@ func (h *hist) setupTSS() error {
 }
 
 // tssTraffic delivers a fresh packet "from" the TSS-secured chain or replays an accepted one in several forms.
-func (h *hist) tssTraffic() {
+func (h *hist) tssTraffic(mode string) {
 	s := h.s
 	n := s.W.Nodes[s.Rng.Intn(len(s.W.Nodes))]
+	if mode == "replay-last" {
+		if h.tssLastNode == nil {
+			return
+		}
+		n = h.tssLastNode
+	}
 	mk := func(seq uint64, amount int64, receiver string) []byte {
 		td := packettypes.TransferData{Receiver: receiver, Amount: big.NewInt(amount).FillBytes(make([]byte, 32)), Token: "0x00000000000000000000000000000000000000aa", OriToken: ""}
 		tdb, _ := td.ABIPack()
@@ -163,9 +175,23 @@ func (h *hist) tssTraffic() {
 		}
 	}
 	sort.Strings(accepted)
-	if len(accepted) == 0 || s.Rng.Intn(3) == 0 {
+	if mode == "replay-last" {
+		accepted = []string{h.tssLastKey}
+	}
+	if mode != "replay-last" && (len(accepted) == 0 || s.Rng.Intn(3) == 0 || mode == "fresh-high") {
+		// a TSS-secured chain numbers its packets itself: any uint64, in any order (boundary values included)
 		h.tssSeq++
 		seq := h.tssSeq
+		if s.Rng.Intn(2) == 0 {
+			seq = core.GenUint64(s.Rng)
+		}
+		if mode == "fresh-high" {
+			// sequences at and above 2^63 (where a signed conversion changes the number)
+			seq = []uint64{1 << 63, 1<<63 + 1, ^uint64(0), ^uint64(0) - 1, 1<<63 + uint64(s.Rng.Int63())}[s.Rng.Intn(5)]
+		}
+		if _, dup := h.tssOrig[fmt.Sprintf("%s|%d", n.Name, seq)]; dup || seq == 0 {
+			return
+		}
 		bz := mk(seq, 1000+int64(s.Rng.Intn(1000)), pkt.LowerHex(s.RandUser().Eth))
 		msg := packettypes.NewMsgRecvPacket(bz, []byte("unused"), clienttypes.NewHeight(0, 1), h.tss.Acc)
 		o := s.Deliver(n, h.tss, fmt.Sprintf("tss recv #%d", seq), msg)
@@ -176,6 +202,7 @@ func (h *hist) tssTraffic() {
 			pk.SrcN, pk.DstN, pk.Received, pk.RecvCount, pk.RecvBlock = nil, n, true, 1, o.Block
 			key := fmt.Sprintf("%s|%d", n.Name, seq)
 			h.tssOrig[key], h.tssPkt[key] = msg, pk
+			h.tssLastNode, h.tssLastKey = n, key
 			h.r.Count("tss_recvs_accepted", 1)
 		} else {
 			h.r.Count("tss_recvs_rejected", 1)
